@@ -232,7 +232,7 @@ def check_C09(tier):
     proof = common.prove(C09_THEOREMS, C09_MODULES)
     results = sweep.run(tier, rng, inputs=False, n_random=800 if tier == "quick" else 20000,
                         n_tiny=800 if tier == "quick" else None, big=30 if tier == "quick" else 300)
-    ties = cert_ties(results, ["gramWF", "certA"])
+    ties = cert_ties(results, ["gramWF", "certA", "certCanon"])
     ties += mirror_ties(results, ("STATE", "GOTO"), "LR(0) states and transitions (literal numbering)")
     violations, samples = [], []
     nstates = 0
@@ -275,8 +275,8 @@ def check_C09(tier):
     return common.conclude(pid, tier, "proof", proof, ties, violations, cov, ["grammars below the 2000-state cap"])
 
 
-C09_THEOREMS = ["Y.Props.C01_sound"]
-C09_MODULES = ["Yv.Props.C01"]
+C09_THEOREMS = ["Y.Props.C09_canonical", "Y.Props.C09_hygiene", "Y.Props.C09_closure"]
+C09_MODULES = ["Yv.Props.C09"]
 
 
 # ------------------------------------------------------------------------------------------- C04
@@ -532,7 +532,7 @@ def check_C04(tier):
     for r in results:
         if r.refused is not None:
             continue
-        if r.case["kind"] == "expr":
+        if r.case["kind"] == "expr" and not r.case.get("spec", {}).get("layered"):
             expr_results.append(r)
         rows = r.rows()
         err = len(rows) + 100
@@ -824,6 +824,50 @@ def x_model_ties(res, variants=None, with_trace=False):
     return ties, n
 
 
+def driver_cert_ties(res, variants=None):
+    """the parameters the driver model is run with (scraped from each generated file) must be the
+    `dparams` of the grammar and table the implementation built in-process: then the theorems about
+    `run (dparams G T n sem eof)` apply to the very function that is compared with the compiled parser"""
+    ties = []
+    for c in res["usable"]:
+        core = c.get("core")
+        if core is None or core.g is None:
+            continue
+        g = core.g
+        rows = core.rows()
+        n = len(rows)
+        for v in (variants or xrun.VARIANTS):
+            m = res["meta"]["%s|%s" % (c["id"], v[3])]
+            sc = m.get("scrape")
+            if not sc:
+                continue
+            why = None
+            if sc["err"] != n + 100 or sc["acc"] != n + 200:
+                why = "ERROR_ACTION/ACCEPT_ACTION %s/%s are not the table's codes %d/%d" % (sc["err"], sc["acc"], n + 100, n + 200)
+            for i in range(1, len(g.rules)):
+                sr = sc["rules"].get(i)
+                if sr is None or sr["lhs"] != g.rules[i][0] or sr["base"] != len(g.rules[i][1]) or sr["pop"] != len(g.rules[i][1]):
+                    why = "reduce case %d emits %s, the rule has lhs %d and length %d" % (i, sr, g.rules[i][0], len(g.rules[i][1]))
+            if set(sc["rules"]) - set(range(1, len(g.rules))):
+                why = "reduce cases for non-existent rules"
+            if not sc["packed"]:
+                if sc["rows"] != rows:
+                    why = "emitted table differs from GTable"
+            else:
+                for key, pre in (("act", "ACT"), ("off", "OFF"), ("chk", "CHK"), ("adef", "ADEF"), ("gdef", "GDEF")):
+                    want = [[int(x) for x in l.split()[1:]] for l in core.impl if l.split()[0] == pre]
+                    if not want or sc[key] != want[0]:
+                        why = "emitted packed array %s differs from the in-process one" % pre
+                if sc["nterminals"] != g.nT:
+                    why = "NTERMINALS %s != %d" % (sc["nterminals"], g.nT)
+            want_tr = {vv["value"]: k for k, vv in g.syms.items() if not vv["nt"]}
+            if sc["translate"] != want_tr:
+                why = "translate switch differs from the symbol table"
+            if why:
+                ties.append({"what": "driverCert: " + why, "case": c["id"], "variant": v[3], "grammar_file": m["src"][:1500]})
+    return ties
+
+
 def x_build_ties(res):
     if res.get("build_error"):
         return [{"what": "generated Go files do not compile", "detail": res["build_error"][-1500:]}]
@@ -849,6 +893,7 @@ def check_C08(tier):
     ties = x_build_ties(res)
     t2, nruns = x_model_ties(res)
     ties += t2
+    ties += driver_cert_ties(res)
     violations, samples = [], []
     vnames = [v[3] for v in xrun.VARIANTS if not (v[0] == "typescript" and res["node"] is None)]
     inputs = 0
@@ -878,9 +923,9 @@ def check_C08(tier):
                            ["GetToken is the harness's; actions are linear over union fields modulo a prime so Go int, JS number and Lean Int agree"])
 
 
-C08_THEOREMS = []
-C08_MODULES = []
-C08_LEVEL = "translation_validation"
+C08_THEOREMS = ["Y.Props.C08_equiv", "Y.AD.astep_refines", "Y.AD.arun_refines"]
+C08_MODULES = ["Yv.Props.C08"]
+C08_LEVEL = "proof"
 
 
 # ------------------------------------------------------------------------------------------- C07
@@ -915,6 +960,7 @@ def check_C07(tier):
     ties = x_build_ties(res)
     t2, nruns = x_model_ties(res)
     ties += t2
+    ties += driver_cert_ties(res)
     violations, samples = [], []
     vnames = [v[3] for v in xrun.VARIANTS if not (v[0] == "typescript" and res["node"] is None)]
     accepted = 0
@@ -953,9 +999,9 @@ def check_C07(tier):
     return common.conclude(pid, tier, C07_LEVEL, proof, ties, violations, cov, ["$k only for 1 <= k <= |rhs| and only for symbols with a tag"])
 
 
-C07_THEOREMS = []
-C07_MODULES = []
-C07_LEVEL = "translation_validation"
+C07_THEOREMS = ["Y.Props.C07_value", "Y.Props.C07_slots"]
+C07_MODULES = ["Yv.Props.C07"]
+C07_LEVEL = "proof"
 
 
 # ------------------------------------------------------------------------------------------- C17
@@ -982,6 +1028,7 @@ def check_C17(tier):
     ties = x_build_ties(res)
     t2, nruns = x_model_ties(res, variants=govars)
     ties += t2
+    ties += driver_cert_ties(res, variants=govars)
     violations, samples = [], []
     lines_checked = 0
     for c in res["usable"]:
@@ -1084,9 +1131,9 @@ def check_C17(tier):
     return common.conclude(pid, tier, C17_LEVEL, proof, ties, violations, cov, ["symbol names without % or quotes (see C16 finding)"])
 
 
-C17_THEOREMS = []
-C17_MODULES = []
-C17_LEVEL = "translation_validation"
+C17_THEOREMS = ["Y.Props.C17_trace"]
+C17_MODULES = ["Yv.Props.C17"]
+C17_LEVEL = "proof"
 
 
 # ------------------------------------------------------------------------------------------- C16
@@ -1331,8 +1378,9 @@ def xviol15(pid, res, c, variant, label, w, got, exp):
     return {"key": common.finding_key({"src": m["src"], "mode": label, "input": w}), "what": payload["what"] + " (" + label + ")", "replay": payload}
 
 
-C15_THEOREMS = ["ArrS.abs_push", "ArrS.abs_pop", "ArrS.abs_initGlobal", "ArrS.abs_initObj"]
-C15_MODULES = ["Yv.Proofs.ArrStack"]
+C15_THEOREMS = ["Y.Props.C15_reinit_global", "Y.Props.C15_reinit_ctx", "Y.Props.bottomIntact_preserved",
+                "Y.Props.C15_reinit_ctx_after_parses", "Y.Props.C15_contexts", "Y.Props.C15_contexts_run"]
+C15_MODULES = ["Yv.Props.C15"]
 C15_LEVEL = "proof"
 
 
@@ -1925,6 +1973,10 @@ def check_C14(tier):
         srcs.append(("rand:%d" % i, xrun.render_x(xs, "go", "p", False, False)))
     for i in range(5 if tier == "quick" else 40):
         srcs.append(("file:%d" % i, gen.render_file(gen.file_spec(rng), rng)))
+    for name, src in gen.CORPUS.items():
+        srcs.append(("corpus:" + name, src))
+    for i in range(12 if tier == "quick" else 80):
+        srcs.append(("expr:%d" % i, gen.render(gen.expr_grammar(rng))))
     N = 6 if tier == "quick" else 20
     optsets = [("go", []), ("go", ["-u"]), ("go", ["-o"]), ("go", ["-o", "-u"]), ("typescript", [])]
     jobs = []
